@@ -13,8 +13,9 @@ Statements:
   ('raw', [lines]) ('decl', n, type|None, e) ('assign', n, e) ('print', e) ('expr', e)
   ('if', c, then, else|None) ('while', c, body) ('break',) ('block', body)
   ('fn', n, [(p, type)], rtype|None, body) ('return', e) ('callstmt', f, [args])
-Every binding of a program has a globally unique name, so the model keeps ONE flat environment (closures
-capture by reference; `a ?= e` stores into `a` wherever `a` was declared — the statement's semantics)."""
+Scoping is lexical: one Scope per function activation whose parent is the scope the function was defined in
+(closures capture by reference; a caller's locals are invisible to the callee; `a ?= e` stores into the
+binding of `a` the function sees — its own variable or a captured one — and only otherwise makes a local)."""
 
 
 class Obj:
@@ -66,9 +67,26 @@ def fmt(v, inner=False):
 CLASS_FIELDS = {"K": ["id"], "Bx": ["v"]}
 
 
+class Scope:
+    """Variables of one function activation (or of the module); `parent` is the scope the function was DEFINED in
+    (lexical scoping: a caller's locals are never visible to the callee)."""
+
+    def __init__(self, parent=None):
+        self.vars = {}
+        self.parent = parent
+
+    def find(self, name):
+        s = self
+        while s is not None:
+            if name in s.vars:
+                return s
+            s = s.parent
+        return None
+
+
 class Model:
     def __init__(self, or_evaluates_fallback=False, max_steps=20000):
-        self.env = {}
+        self.scope = Scope()
         self.fns = {}
         self.out = []
         self.steps = 0
@@ -94,7 +112,7 @@ class Model:
         if t == "nil":
             return None
         if t == "var":
-            return self.env[e[1]]
+            return self.get(e[1])
         if t == "call":
             return self.call(e[1], [self.eval(a) for a in e[2]])
         if t == "new":
@@ -138,7 +156,8 @@ class Model:
             return self.eval(e[2])
         if t == "unwrap":
             v = self.eval(e[2])
-            self.env[e[1]] = v
+            # `a ?= e` writes through to an existing binding (own variable or captured one), else makes a local
+            (self.scope.find(e[1]) or self.scope).vars[e[1]] = v
             self.ev("unwrap:" + ("nil" if v is None else "present"))
             return (v is None) if self.breakage == "unwrap_flag" else (v is not None)
         if t == "and":
@@ -164,16 +183,25 @@ class Model:
             raise ModelError("mixed-type equality %r %r" % (a, b))
         return a == b
 
+    def get(self, name):
+        s = self.scope.find(name)
+        if s is None:
+            raise ModelError("unbound name %r" % (name,))
+        return s.vars[name]
+
     def call(self, name, args):
-        if name not in self.fns:                  # a variable holding a closure value (escaped closure)
-            name = self.env[name][1]
-        params, body = self.fns[name]
+        clo = self.get(name) if self.scope.find(name) is not None else self.fns[name]
+        _tag, _n, params, body, defined_in = clo
+        saved = self.scope
+        self.scope = Scope(defined_in)
         for (p, _t), a in zip(params, args):
-            self.env[p] = a
+            self.scope.vars[p] = a
         try:
             self.run(body)
         except _Ret as r:
             return r.v
+        finally:
+            self.scope = saved
         return None
 
     # ---- statements
@@ -186,9 +214,9 @@ class Model:
             if t == "raw":
                 continue
             if t == "decl":
-                self.env[s[1]] = self.eval(s[3])
+                self.scope.vars[s[1]] = self.eval(s[3])          # a declaration always makes a local
             elif t == "assign":
-                self.env[s[1]] = self.eval(s[2])
+                self.scope.vars[s[1]] = self.eval(s[2])          # plain `x = e`: own variable (C07)
             elif t == "print":
                 self.out.append(fmt(self.eval(s[1])))
             elif t == "expr":
@@ -209,8 +237,9 @@ class Model:
             elif t == "block":
                 self.run(s[1])
             elif t == "fn":
-                self.fns[s[1]] = (s[2], s[4])
-                self.env[s[1]] = ("closure", s[1])
+                clo = ("closure", s[1], s[2], s[4], self.scope)
+                self.fns[s[1]] = clo
+                self.scope.vars[s[1]] = clo
             elif t == "return":
                 raise _Ret(self.eval(s[1]))
             elif t == "callstmt":
